@@ -549,9 +549,19 @@ def model_task(task, ybin, root):
         cfg.time_types = False
     pkg_a = sw.stream_package(rng.next(), cfg=cfg, pad=False, for_cpp=want_cpp)
     add_steering(pkg_a)
+    if rng.fork("bigschema").chance(0.6 if want_cpp else 0.15):
+        # a schema text of some twenty kilobytes (an enumeration with several hundred symbols that sorts before everything
+        # else): what distinguishes the near-identical model then lies far into the text
+        fn_ = sorted(pkg_a.files)[0]
+        pkg_a.files[fn_].append(M.Enum("AaaBigCodes", "uint16", [("code%03d" % k_, k_) for k_ in range(rng.fork("bigschema2").randint(620, 900))]))
+        rq_ = pkg_a.find("SteerRecQ")
+        rq_.fields.insert(0, ("code", M.Named("AaaBigCodes")))
+        stats_big = True
+    else:
+        stats_big = False
     edit = rng.choice(EDITS)
     pkg_b = near_identical(pkg_a, edit)
-    stats, viols, cases = {"models_with_cpp": 1 if want_cpp else 0, "edit_" + edit: 1}, [], []
+    stats, viols, cases = {"models_with_cpp": 1 if want_cpp else 0, "edit_" + edit: 1, "models_with_a_schema_text_of_some_20_kB": 1 if stats_big else 0}, [], []
     # model A: only its schemas are needed (its streams come from the reference encoder)
     model_a = P.PyModel(pkg_a, ybin, root)
     try:
